@@ -356,6 +356,45 @@ fn symbols_correspondence(model: &mut Model, rep: &mut Report, h: &History) {
     }
 }
 
+/// `iwe contents` and `iwe paths --depth d` vs `Cli.contentsOutput` / `Cli.pathsOutput` on the imported library
+fn cli_correspondence(model: &mut Model, rep: &mut Report, case: &crate::cli::CliCase) {
+    // a heading text with a line break in it would be printed on two lines: compared through the library API only
+    let h = History { ext: case.ext.to_string(), import: case.lib.to_vec(), steps: vec![] };
+    let Some(reply) = hist::model_reply_parts(model, &h, &["cli"]) else { return };
+    let states = dump::children(&reply);
+    let Some(last) = states.last() else { return };
+    let parts = dump::children(last);
+    let Some(mc) = parts.iter().find(|p| p.starts_with("(cli")) else {
+        rep.count("cli_corr_skipped_model_error_or_unmodelled");
+        return;
+    };
+    if mc.contains("skipped") {
+        rep.count("cli_corr_skipped_model_error_or_unmodelled");
+        return;
+    }
+    let Some(Ok((contents, paths))) = crate::cli::outputs(case) else {
+        rep.count("cli_corr_skipped_binary_failed");
+        return;
+    };
+    let entries = dump::children(mc);
+    let lines_of = |e: &str, skip: usize| -> Vec<String> { dump::children(e)[skip..].iter().map(|x| crate::sexp::unhex(x).unwrap_or_default()).collect() };
+    let m_contents = entries.iter().find(|e| e.starts_with("(contents")).map(|e| lines_of(e, 1)).unwrap_or_default();
+    let want = format!("(paths {} ", case.paths_depth);
+    let want_empty = format!("(paths {})", case.paths_depth);
+    let m_paths = entries.iter().find(|e| e.starts_with(&want) || **e == want_empty).map(|e| lines_of(e, 2)).unwrap_or_default();
+    if m_contents.iter().chain(m_paths.iter()).any(|l| l.contains('\n')) {
+        rep.count("cli_corr_skipped_multiline_heading");
+        return;
+    }
+    rep.correspondence_cases += 1;
+    rep.count("cli_corr_cases");
+    if m_contents != contents {
+        rep.disagree(json!({"op": "Cli.contentsOutput vs `iwe contents`", "model": m_contents.iter().take(8).collect::<Vec<_>>(), "impl": contents.iter().take(8).collect::<Vec<_>>(), "library": case.lib, "ext": case.ext}));
+    } else if m_paths != paths {
+        rep.disagree(json!({"op": format!("Cli.pathsOutput vs `iwe paths --depth {}`", case.paths_depth), "model": m_paths.iter().take(8).collect::<Vec<_>>(), "impl": paths.iter().take(8).collect::<Vec<_>>(), "library": case.lib, "ext": case.ext}));
+    }
+}
+
 pub fn run(ctx: &Ctx, model: &mut Model, rep: &mut Report) {
     rep.rule = "libraries of heading trees (well-nested and not, duplicate and code-only titles, headings inside lists and quotes) with block references forming DAGs and cycles, dangling targets, sub-directories, >100 headings in the big cases; edit histories; correspondence: model outline paths + search paths (text, rank, key, root, line) vs the real ones after every step, and the order/truncation of global_search for 4 queries with the real fuzzy scores as input; oracle: listed paths = chains found by an independent scan of the formatted notes (sound + complete for notes reachable from an unreferenced note), ≤100 results, documented order, names = heading texts; non-trivial = ≥2 headings; distinct by text".to_string();
     if let Some(path) = &ctx.replay {
@@ -477,6 +516,10 @@ pub fn run(ctx: &Ctx, model: &mut Model, rep: &mut Report) {
             let case = crate::cli::CliCase { lib: &lib, ext: if i % 16 == 2 { "" } else { ".md" }, sub: if i % 3 == 0 { "" } else { "notes" }, squash: None, paths_depth: (2 + i % 4) as u8, tag: &format!("c18-{}", i) };
             if let Some(w) = crate::cli::check(&case) {
                 rep.fail(case.failure(w));
+            }
+            // … and against the model of `paths_command` / `contents_command` (Model/Cli.lean)
+            if !big {
+                cli_correspondence(model, rep, &case);
             }
         }
         let via = if lib.len() > 8 || lib.iter().map(|(_, t)| t.len()).sum::<usize>() > 4000 { crate::act::Via::Import } else { crate::act::via_for(i as u64) };
